@@ -1347,6 +1347,13 @@ impl ServerSession {
         Ok(packet)
     }
 
+    /// Verification hook: makes the session `milliseconds` older by moving its start time
+    /// into the past.  The epoch computation itself is untouched.
+    #[cfg(feature = "verif-hooks")]
+    pub fn verif_shift_clock(&mut self, milliseconds: u64) {
+        self.start_time = self.start_time - ::std::time::Duration::from_millis(milliseconds);
+    }
+
     fn get_epoch(&self) -> RtmpTimestamp {
         match self.start_time.elapsed() {
             Ok(duration) => {
